@@ -277,7 +277,8 @@ def on_one_line(pts, coords_1d, tol):
 
 def rand_centre_angle(r, extent=1.0):
     c = (0.0, 0.0) if r.random() < 0.2 else (float(r.normal() * extent), float(r.normal() * extent))
-    a = None if r.random() < 0.25 else float(r.uniform(-180.0, 180.0))
+    u = r.random()
+    a = None if u < 0.25 else (0.0 if u < 0.35 else float(r.uniform(-180.0, 180.0)))
     return c, a
 
 
@@ -535,6 +536,10 @@ def check_irregular(ctx, i):
         pts.append(np.asarray(centre) + off)
     gin = np.array(pts, dtype=float).reshape(n, 2)
     grid = aa.Grid2DIrregular(values=gin.copy())
+    if i % 4 == 1:
+        # the public subclass for irregular coordinates that originate from a uniform grid: still an irregular grid
+        grid = aa.Grid2DIrregularUniform(values=gin.copy(), shape_native=(1, n), pixel_scales=(0.5, 0.5))
+        ctx.classes["irregular:Grid2DIrregularUniform"] += 1
     tags = tags_for(r, [gin, gin - np.asarray(centre)], ctx)
     if tags is None:
         return
@@ -663,6 +668,24 @@ def check_grid1d(ctx, i):
                     d2 = l2[-1] - l2[0]
                     u2 = d2 / np.hypot(*d2)
                     ctx.check(float(np.abs(u1 / np.hypot(*u1) - u2).max()) <= 1e-9, "project.direction_same_for_1d_and_2d", direction_1d=u1, direction_2d=u2, **W)
+            # the projected line turns with the profile's angle: the directions obtained for the angles 0.0 (exactly), a1 and a2
+            # differ by the rotations a1 and a2 (one common orientation) - for Grid2D and for Grid1D input alike
+            a1, a2 = float(r.uniform(10.0, 80.0)), float(r.uniform(100.0, 170.0))
+            dirs = {}
+            for gname, gg in (("grid2d", aa.Grid2D.uniform(shape_native=(5, 7), pixel_scales=(ps, ps))), ("grid1d", aa.Grid1D.uniform_from_zero(shape_native=(5,), pixel_scales=ps))):
+                th = []
+                for a_ in (0.0, a1, a2):
+                    q = ctx.profiles[prof_name](tags, centre=centre, angle=a_)
+                    okq, _, lq = call_logged(ctx, q, "project.exception", q.f_project, gg)
+                    if okq and len(lq) == 1 and len(lq[0][1]) >= 2:
+                        dq = lq[0][1][-1] - lq[0][1][0]
+                        th.append(float(np.degrees(np.arctan2(dq[0], dq[1]))))
+                if len(th) == 3:
+                    dirs[gname] = th
+                    def turn(x):
+                        return (x + 180.0) % 360.0 - 180.0
+                    good = any(abs(turn((th[1] - th[0]) - sgn * a1)) <= 1e-6 and abs(turn((th[2] - th[0]) - sgn * a2)) <= 1e-6 for sgn in (1.0, -1.0))
+                    ctx.check(good, "project.direction_follows_angle", input=gname, angles=[0.0, a1, a2], line_directions_deg=th, **W)
             exp = tags.t(line)
             ctx.check(isinstance(res, aa.Array1D) and _np(res.slim).shape == exp.shape and np.array_equal(_np(res.slim), exp),
                       "project.grid1d.pairing", result_type=type(res).__name__, expected=exp, got=lambda: _np(res), **W)
